@@ -697,33 +697,17 @@ where
     __bytes_find(left, pattern.as_bytes())
 }
 pub(crate) const fn __bytes_find(left: &[u8], pattern: &[u8]) -> Option<usize> {
-    let mut matching = pattern;
+    let mut rem = left;
 
-    crate::for_range! {i in 0..left.len() =>
-        match matching {
-            [mb, m_rem @ ..] => {
-                let b = left[i];
-
-                matching = if b == *mb {
-                    m_rem
-                } else {
-                    match pattern {
-                        // For when the string is "lawlawn" and we are trying to find "lawn"
-                        [mb2, m_rem2 @ ..] if b == *mb2 => m_rem2,
-                        _ => pattern,
-                    }
-                };
-            }
-            [] => {
-                return Some(i - pattern.len())
-            }
+    loop {
+        if __bytes_start_with(rem, pattern) {
+            return Some(left.len() - rem.len());
         }
-    }
 
-    if matching.is_empty() {
-        Some(left.len() - pattern.len())
-    } else {
-        None
+        match rem {
+            [_, tail @ ..] => rem = tail,
+            [] => return None,
+        }
     }
 }
 
@@ -779,37 +763,21 @@ where
     __bytes_rfind(left, pattern.as_bytes())
 }
 pub(crate) const fn __bytes_rfind(left: &[u8], pattern: &[u8]) -> Option<usize> {
-    let mut matching = pattern;
-
-    let llen = left.len();
-
-    let mut i = llen;
-
-    while i != 0 {
-        i -= 1;
-
-        match matching {
-            [m_rem @ .., mb] => {
-                let b = left[i];
-
-                matching = if b == *mb {
-                    m_rem
-                } else {
-                    match pattern {
-                        // For when the string is "lawlawn" and we are trying to find "lawn"
-                        [m_rem2 @ .., mb2] if b == *mb2 => m_rem2,
-                        _ => pattern,
-                    }
-                };
-            }
-            [] => return Some(i + (!pattern.is_empty()) as usize),
-        }
+    if pattern.is_empty() {
+        return Some(left.len().saturating_sub(1));
     }
 
-    if matching.is_empty() {
-        Some(i)
-    } else {
-        None
+    let mut rem = left;
+
+    loop {
+        if __bytes_end_with(rem, pattern) {
+            return Some(rem.len() - pattern.len());
+        }
+
+        match rem {
+            [head @ .., _] => rem = head,
+            [] => return None,
+        }
     }
 }
 
@@ -1072,55 +1040,17 @@ pub(crate) const fn __bytes_trim_end_matches<'a>(mut this: &'a [u8], needle: &[u
     }
 }
 
-macro_rules! elem_then_rem {
-    ($elem:ident, $($rem:tt)*) => { [$elem, $($rem)*] };
-}
-
-macro_rules! rem_then_elem {
-    ($elem:ident, $($rem:tt)*) => { [$($rem)*, $elem] };
-}
-
 macro_rules! byte_find_then {
-    ($slice_order:ident, $this:ident, $needle:ident, |$next:ident| $then:block) => ({
+    ($find:ident, $this:ident, $needle:ident, |$pos:ident| $then:expr) => {{
         if $needle.is_empty() {
             return Some($this);
         }
 
-        let mut matching = $needle;
-
-        let mut $next = $this;
-
-        while let $slice_order!(mb, ref m_rem @ ..) = *matching {
-            matching = m_rem;
-
-            if let $slice_order!(b, ref rem @ ..) = *$next {
-                if b != mb {
-                    matching = match *$needle {
-                        // For when the string is "lawlawn" and we are skipping "lawn"
-                        $slice_order!(mb2, ref m_rem2 @ ..) if b == mb2 => {
-                            // This is considered used in half of the macro invocations
-                            #[allow(unused_assignments)]
-                            {$this = $next;}
-                            m_rem2
-                        },
-                        _ => {
-                            // This is considered used in half of the macro invocations
-                            #[allow(unused_assignments)]
-                            {$this = rem;}
-                            $needle
-                        },
-                    };
-                }
-                $next = rem;
-            } else {
-                return None;
-            }
+        match $find($this, $needle) {
+            Some($pos) => Some($then),
+            None => None,
         }
-
-        $then
-
-        Some($this)
-    });
+    }};
 }
 
 /// Advances `this` past the first instance of `needle`.
@@ -1154,8 +1084,8 @@ where
     let needle = PatternNorm::new(needle);
     __bytes_find_skip(this, needle.as_bytes())
 }
-pub(crate) const fn __bytes_find_skip<'a>(mut this: &'a [u8], needle: &[u8]) -> Option<&'a [u8]> {
-    byte_find_then! {elem_then_rem, this, needle, |next| {this = next}}
+pub(crate) const fn __bytes_find_skip<'a>(this: &'a [u8], needle: &[u8]) -> Option<&'a [u8]> {
+    byte_find_then! {__bytes_find, this, needle, |pos| slice_from(this, pos + needle.len())}
 }
 
 /// Advances `this` up to the first instance of `needle`.
@@ -1189,8 +1119,8 @@ where
     let needle = PatternNorm::new(needle);
     __bytes_find_keep(this, needle.as_bytes())
 }
-pub(crate) const fn __bytes_find_keep<'a>(mut this: &'a [u8], needle: &[u8]) -> Option<&'a [u8]> {
-    byte_find_then! {elem_then_rem, this, needle, |next| {}}
+pub(crate) const fn __bytes_find_keep<'a>(this: &'a [u8], needle: &[u8]) -> Option<&'a [u8]> {
+    byte_find_then! {__bytes_find, this, needle, |pos| slice_from(this, pos)}
 }
 
 /// Truncates `this` to before the last instance of `needle`.
@@ -1224,8 +1154,8 @@ where
     let needle = PatternNorm::new(needle);
     __bytes_rfind_skip(this, needle.as_bytes())
 }
-pub(crate) const fn __bytes_rfind_skip<'a>(mut this: &'a [u8], needle: &[u8]) -> Option<&'a [u8]> {
-    byte_find_then! {rem_then_elem, this, needle, |next| {this = next}}
+pub(crate) const fn __bytes_rfind_skip<'a>(this: &'a [u8], needle: &[u8]) -> Option<&'a [u8]> {
+    byte_find_then! {__bytes_rfind, this, needle, |pos| slice_up_to(this, pos)}
 }
 
 /// Truncates `this` to the last instance of `needle`.
@@ -1259,8 +1189,8 @@ where
     let needle = PatternNorm::new(needle);
     __bytes_rfind_keep(this, needle.as_bytes())
 }
-pub(crate) const fn __bytes_rfind_keep<'a>(mut this: &'a [u8], needle: &[u8]) -> Option<&'a [u8]> {
-    byte_find_then! {rem_then_elem, this, needle, |next| {}}
+pub(crate) const fn __bytes_rfind_keep<'a>(this: &'a [u8], needle: &[u8]) -> Option<&'a [u8]> {
+    byte_find_then! {__bytes_rfind, this, needle, |pos| slice_up_to(this, pos + needle.len())}
 }
 
 /// A const equivalent of
